@@ -1,6 +1,8 @@
 import ActixModel.Proofs.Files
 import ActixModel.Proofs.PathBuf
+import ActixModel.Proofs.Url
 import ActixModel.Proofs.Range
+import ActixModel.Proofs.RangeSpec
 /-
 C16 — static file serving stays inside its root and answers ranges exactly.
 
@@ -31,7 +33,8 @@ directory has `root` as a prefix -/
 def StaysBelow (root : List Bytes) (comps : List Bytes) : Prop :=
   ∀ k, root <+: resolve root (comps.take k)
 
-theorem resolve_normal (stack comps : List Bytes) (h : ∀ c ∈ comps, isNormalSeg c = true) :
+/-- a walk over Normal components only descends -/
+theorem C16_resolve_normal (stack comps : List Bytes) (h : ∀ c ∈ comps, isNormalSeg c = true) :
     resolve stack comps = stack ++ comps := by
   induction comps generalizing stack with
   | nil => simp [resolve]
@@ -64,10 +67,73 @@ theorem C16_no_escape (hidden : Bool) (path : Bytes) :
   · intro buf hb
     rw [hb] at h
     simp only [PathPost] at h
-    refine ⟨h, fun root => ⟨resolve_normal root buf h, ?_⟩⟩
+    refine ⟨h, fun root => ⟨C16_resolve_normal root buf h, ?_⟩⟩
     intro k
-    rw [resolve_normal root (buf.take k) (fun c hc => h c (List.mem_of_mem_take hc))]
+    rw [C16_resolve_normal root (buf.take k) (fun c hc => h c (List.mem_of_mem_take hc))]
     exact List.prefix_append _ _
+
+/-- the segment loop computes the lexical walk from its current buffer -/
+theorem C16_segLoop_is_walk (hidden : Bool) : ∀ (segs buf : List Bytes) (cnt : Nat) (buf' : List Bytes) (cnt' : Nat),
+    segLoop hidden segs buf cnt = .ok (buf', cnt') → buf' = resolve buf segs := by
+  intro segs
+  induction segs with
+  | nil => intro buf cnt buf' cnt' h; simp only [segLoop, Outcome.ok.injEq, Prod.mk.injEq] at h; simp [resolve, h.1]
+  | cons seg rest ih =>
+    intro buf cnt buf' cnt' h
+    unfold segLoop at h
+    split at h
+    · cases h
+    · rename_i hdot
+      split at h
+      · rename_i hdd
+        cases cnt with
+        | zero => cases h
+        | succ c => simp only [resolve, hdd, if_true]; exact ih _ _ _ _ h
+      · rename_i hdd
+        split at h
+        · cases h
+        · split at h
+          · cases h
+          · split at h
+            · cases h
+            · split at h
+              · cases h
+              · split at h
+                · cases h
+                · split at h
+                  · rename_i hemp
+                    have he : seg = [] := by simpa using hemp
+                    cases cnt with
+                    | zero => cases h
+                    | succ c => simp only [resolve, hdd, he, if_false, or_true, if_true]; subst he; exact ih _ _ _ _ h
+                  · rename_i hne
+                    have he : seg ≠ [] := by simpa using hne
+                    simp only [resolve, hdd, hdot, he, if_false, or_self]
+                    exact ih _ _ _ _ h
+
+/-- **C16_parse_path_is_lexical_walk**: when `parse_path` accepts, its result is exactly the
+lexical walk (`..` pops, empty pieces skipped) over the `/`-pieces of the once-decoded string,
+started at the (empty) root — the function computes the normal form, not merely something safe. -/
+theorem C16_parse_path_is_lexical_walk (hidden : Bool) (path : Bytes) (buf : List Bytes)
+    (h : parsePath hidden path = .ok buf) :
+    buf = resolve [] (splitOn 0x2F (percentDecode path)) := by
+  unfold parsePath at h
+  simp only at h
+  split at h
+  · cases h
+  · split at h
+    · cases h
+    · split at h
+      · rename_i b c heq
+        have hw := C16_segLoop_is_walk hidden _ _ _ _ _ heq
+        unfold finalCheck at h
+        split at h
+        · cases h
+        · split at h
+          · cases h
+          · cases h; exact hw
+      · cases h
+      · cases h
 
 /-- the hypotheses of `C16_no_escape` are satisfiable with a non-trivial result:
 `/a/../b/%2e%2e/c` parses to `c` -/
@@ -127,18 +193,18 @@ example : parsePathS false (ascii ['/', 'a', '/', '.', '.', '/', 'b', '/', 'c', 
 
 /-- `serve` answers with a file or a listing only at a tree position whose components are all
 Normal (given a Normal index-file name): the served location is `root/…` for every root. -/
-def ServedInside (ix : Option Bytes) : Served → Prop
+def ServedInside : Served → Prop
   | .file path _ _ => ∀ c ∈ path, isNormalSeg c = true
   | .listing dir => ∀ c ∈ dir, isNormalSeg c = true
   | .panic _ => False
-  | _ => (ix = ix)
+  | _ => True
 
 /-- **C16_serve_inside**: for every configuration, tree, method and request path, the file
 service never panics, and whenever it opens a file or lists a directory, the location is the
 root followed by Normal components only (`resolve root path = root ++ path`). -/
 theorem C16_serve_inside (cfg : Config) (t : Tree) (getOrHead : Bool) (unprocessed : Bytes) (endsSlash : Bool)
     (hix : ∀ ix, cfg.index = some ix → isNormalSeg ix = true) :
-    ServedInside cfg.index (serve cfg t getOrHead unprocessed endsSlash) := by
+    ServedInside (serve cfg t getOrHead unprocessed endsSlash) := by
   unfold serve
   have h := parsePath_post cfg.hidden unprocessed
   split
@@ -177,9 +243,20 @@ after the router's re-quoting (`%XX` decoded except `%25 %2F %2B`) and lossy UTF
 service (mounted at `/`) still never panics and serves only below the root. -/
 theorem C16_request_inside (cfg : Config) (t : Tree) (getOrHead : Bool) (rawUriPath : Bytes)
     (hix : ∀ ix, cfg.index = some ix → isNormalSeg ix = true) :
-    ServedInside cfg.index
+    ServedInside
       (serve cfg t getOrHead (urlPath rawUriPath) (endsWithByte 0x2F (urlPath rawUriPath))) :=
   C16_serve_inside cfg t getOrHead _ _ hix
+
+/-- **C16_router_keeps_separators**: for every raw request target, the path the router hands on
+(`%XX` decoded except `%25 %2F %2B`, then lossy UTF-8) has exactly the `/` separators of the raw
+target: an encoded slash is never turned into a separator before `parse_path` sees (and refuses)
+it, and no separator is lost in invalid UTF-8. -/
+theorem C16_router_keeps_separators (raw : Bytes) :
+    countByte 0x2F (urlPath raw) = countByte 0x2F raw :=
+  urlPath_slashes raw
+
+example : urlPath (ascii ['/', 'a', '%', '2', 'f', '%', '2', 'e', '%', 'f', 'f']) =
+    ascii ['/', 'a', '%', '2', 'f', '.'] ++ replacement := by decide
 
 /-- **C16_serve_file_in_tree**: a served file is an entry of the tree below the root (the model's
 file system has nothing else), found under exactly the parsed path or that path plus the index name. -/
@@ -262,6 +339,141 @@ example : intoResponse ⟨10, some ⟨false, [1]⟩, some 100⟩ { ifNoneMatch :
 
 example : intoResponse ⟨10, none, none⟩ {} (.str (ascii ['b', 'y', 't', 'e', 's', '=', '2', '-', '5'])) = .partialContent ⟨2, 5, 10⟩ 2 4 := by
   decide
+
+/-! ### against the grammar of RFC 7233 (canonical shapes, arbitrary digit strings) -/
+
+/-- **C16_range_first_last_rfc**: `bytes=A-B` for *any* digit strings `A`, `B` (leading zeros
+allowed, any length) with values `a ≤ b`, `b < 2^64`: if `a < len` the answer (when no precondition
+intervenes) is 206 for exactly `a ..= min(b, len-1)` — RFC 7233 §2.1, last-byte-pos clamped to the
+representation; if `a ≥ len` it is 416. -/
+theorem C16_range_first_last_rfc (m : FileMeta) (c : Cond) (A B : Bytes) (hA : IsDigits A) (hB : IsDigits B)
+    (hlen : m.len ≤ u64Max) (hab : decVal A ≤ decVal B) (hb : decVal B ≤ u64Max)
+    (hpf : preconditionFailed m c = false) (hnm : notModified m c = false) :
+    intoResponse m c (.str (bytesPrefix ++ (A ++ 0x2D :: B))) =
+      if decVal A < m.len then
+        .partialContent ⟨decVal A, min (decVal B) (m.len - 1), m.len⟩ (decVal A) (min (decVal B) (m.len - 1) - decVal A + 1)
+      else .rangeNotSatisfiable m.len := by
+  have hmem := fun b => @mem_dash_digits A B hA hB b
+  unfold intoResponse intoResponseG
+  simp only
+  rw [parse_one_spec _ _ (by simp) (dash_digits_no_comma hmem) (dash_digits_no_ws hmem),
+    single_first_last A B hA hB m.len hlen]
+  have h1 : ¬ decVal A > u64Max := by omega
+  have h3 : ¬ decVal B > u64Max := by omega
+  have h4 : ¬ decVal A > decVal B := by omega
+  simp only [h1, h3, h4, if_false, hpf, hnm]
+  by_cases h2 : decVal A < m.len
+  · have h2' : ¬ decVal A ≥ m.len := by omega
+    have e1 : ¬ (min (decVal B) (m.len - 1) - decVal A + 1 = 0) := by omega
+    have e2 : decVal A + (min (decVal B) (m.len - 1) - decVal A + 1) ≤ u64Max := by omega
+    have e3 : 1 ≤ decVal A + (min (decVal B) (m.len - 1) - decVal A + 1) := by omega
+    have e4 : decVal A + (min (decVal B) (m.len - 1) - decVal A + 1) - 1 = min (decVal B) (m.len - 1) := by omega
+    simp [h2, h2', e1, lastBytePos, checkedAdd, checkedSub, e2, e3, e4]
+  · have h2' : decVal A ≥ m.len := by omega
+    simp [h2, h2']
+
+/-- **C16_range_open_rfc**: `bytes=A-` with value `a < 2^64`: 206 for `a ..= len-1` if `a < len`, else 416. -/
+theorem C16_range_open_rfc (m : FileMeta) (c : Cond) (A : Bytes) (hA : IsDigits A)
+    (hlen : m.len ≤ u64Max) (ha : decVal A ≤ u64Max)
+    (hpf : preconditionFailed m c = false) (hnm : notModified m c = false) :
+    intoResponse m c (.str (bytesPrefix ++ (A ++ [0x2D]))) =
+      if decVal A < m.len then .partialContent ⟨decVal A, m.len - 1, m.len⟩ (decVal A) (m.len - decVal A)
+      else .rangeNotSatisfiable m.len := by
+  have hmem : ∀ b ∈ A ++ [0x2D], isDigit b = true ∨ b = 0x2D := by
+    intro b hb
+    simp only [List.mem_append, List.mem_cons, List.not_mem_nil, or_false] at hb
+    rcases hb with h | h
+    · exact Or.inl (hA.2 b h)
+    · exact Or.inr h
+  unfold intoResponse intoResponseG
+  simp only
+  rw [parse_one_spec _ _ (by simp) (dash_digits_no_comma hmem) (dash_digits_no_ws hmem), single_first_open A hA m.len]
+  have h1 : ¬ decVal A > u64Max := by omega
+  simp only [h1, if_false, hpf, hnm]
+  by_cases h2 : decVal A < m.len
+  · have h2' : ¬ decVal A ≥ m.len := by omega
+    have e1 : ¬ (m.len - decVal A = 0) := by omega
+    have e2 : decVal A + (m.len - decVal A) ≤ u64Max := by omega
+    have e3 : 1 ≤ decVal A + (m.len - decVal A) := by omega
+    have e4 : decVal A + (m.len - decVal A) - 1 = m.len - 1 := by omega
+    simp [h2, h2', e1, lastBytePos, checkedAdd, checkedSub, e2, e3, e4]
+  · have h2' : decVal A ≥ m.len := by omega
+    simp [h2, h2']
+
+/-- **C16_range_suffix_rfc**: `bytes=-N` with value `0 < n < 2^64` on a non-empty file: 206 for the
+last `min(n, len)` bytes; `n = 0` or an empty file: 416 (the latter is the repaired F7). -/
+theorem C16_range_suffix_rfc (m : FileMeta) (c : Cond) (N : Bytes) (hN : IsDigits N)
+    (hlen : m.len ≤ u64Max) (hn : decVal N ≤ u64Max)
+    (hpf : preconditionFailed m c = false) (hnm : notModified m c = false) :
+    intoResponse m c (.str (bytesPrefix ++ (0x2D :: N))) =
+      if decVal N = 0 ∨ m.len = 0 then .rangeNotSatisfiable m.len
+      else .partialContent ⟨m.len - min (decVal N) m.len, m.len - 1, m.len⟩
+        (m.len - min (decVal N) m.len) (min (decVal N) m.len) := by
+  have hmem : ∀ b ∈ (0x2D : UInt8) :: N, isDigit b = true ∨ b = 0x2D := by
+    intro b hb
+    simp only [List.mem_cons] at hb
+    rcases hb with h | h
+    · exact Or.inr h
+    · exact Or.inl (hN.2 b h)
+  unfold intoResponse intoResponseG
+  simp only
+  rw [parse_one_spec _ _ (by simp) (dash_digits_no_comma hmem) (dash_digits_no_ws hmem), single_suffix N hN m.len]
+  have h1 : ¬ decVal N > u64Max := by omega
+  simp only [h1, if_false, hpf, hnm]
+  by_cases h2 : decVal N = 0
+  · simp [h2]
+  · simp only [h2, if_false, false_or]
+    by_cases h3 : m.len = 0
+    · simp [h3]
+    · have e1 : ¬ (min (decVal N) m.len = 0) := by omega
+      have e2 : m.len - min (decVal N) m.len + min (decVal N) m.len ≤ u64Max := by omega
+      have e3 : 1 ≤ m.len - min (decVal N) m.len + min (decVal N) m.len := by omega
+      have e4 : m.len - min (decVal N) m.len + min (decVal N) m.len - 1 = m.len - 1 := by omega
+      simp [h3, e1, lastBytePos, checkedAdd, checkedSub, e2, e3, e4]
+
+/-- the digit-string hypotheses are satisfiable; `0007-0009` on a 9-byte file is `7 ..= 8` -/
+example : IsDigits (ascii ['0', '0', '0', '7']) ∧ decVal (ascii ['0', '0', '0', '7']) = 7 := by
+  refine ⟨⟨by decide, by decide⟩, by decide⟩
+
+/-- **C16_parse_u64_exact**: the `checked_mul`/`checked_add` loop computes the decimal value of
+every digit string, and fails exactly when the value does not fit 64 bits (no wrap-around, no
+spurious failure on leading zeros). -/
+theorem C16_parse_u64_exact (ds : Bytes) (hd : IsDigits ds) :
+    parseU64 ds = if decVal ds ≤ u64Max then some (decVal ds) else none :=
+  parseU64_exact ds hd
+
+/-- **C16_first_satisfiable_range**: for a header with several comma separated specs, a 206 is
+always for the *first* spec (in header order) that overlaps the file; later ones are ignored
+(multi-range responses are not produced). -/
+theorem C16_first_satisfiable_range (m : FileMeta) (c : Cond) (h : Bytes) (cr : ContentRange) (o l : Nat)
+    (hr : intoResponse m c (.str h) = .partialContent cr o l) :
+    ∃ r rest, (splitOn 0x2C (h.drop 6)).filterMap (pieceRange m.len) = r :: rest ∧ o = r.start ∧ l = r.length := by
+  unfold intoResponse intoResponseG at hr
+  simp only at hr
+  split at hr
+  · cases hr
+  · cases hr
+  · cases hr
+  · rename_i r0 tail heq
+    have hparse : parseLoop m.len (splitOn 0x2C (h.drop 6)) [] false = .ok (r0 :: tail) := by
+      unfold parse at heq
+      split at heq
+      · cases heq
+      · split at heq
+        · cases heq
+        · exact heq
+    have := parseLoop_order m.len _ [] false _ hparse
+    simp only [List.reverse_nil, List.nil_append] at this
+    refine ⟨r0, tail, this.symm, ?_⟩
+    split at hr
+    · cases hr
+    · split at hr
+      · cases hr
+      · split at hr
+        · cases hr
+        · split at hr
+          · cases hr
+          · cases hr; exact ⟨rfl, rfl⟩
 
 /-- **C16_no_range_total**: without a `Range` header the answer is the full 200, 304 or 412; with a
 `Range` value that is not a visible-ASCII string it is 400 (the one outcome outside the
@@ -411,6 +623,17 @@ theorem witness_O2_if_match_does_not_shadow_if_unmodified_since :
         { ifMatch := some (.items [⟨false, [1]⟩]), ifUnmodifiedSince := some 50 } .absent with
      | .preconditionFailed none => true
      | _ => false) = true := by decide
+
+/-- O5 (observation): the router decodes once, `parse_path` decodes again: the request target
+`/%252e` reaches the file whose name is the three characters `%2e` … -/
+theorem witness_O5_double_decoding_reaches_literal_name :
+    parsePath false (urlPath (ascii ['/', '%', '2', '5', '2', 'e'])) = .ok [ascii ['%', '2', 'e']] := by decide
+
+/-- … and `/%%32e%%32e/x` (router: `%32` → `2`) is seen by `parse_path` as `/%2e%2e/x` = `/../x`
+and popped — safe, by `C16_no_escape`. -/
+theorem witness_O5_double_decoding_is_popped :
+    parsePath false (urlPath (ascii ['/', 'a', '/', '%', '%', '3', '2', 'e', '%', '%', '3', '2', 'e', '/', 'x'])) =
+      .ok [ascii ['x']] := by decide
 
 /-- O3 (observation): a last-byte-pos that does not fit `u64` makes the whole header invalid
 (416) although RFC 7233 would clamp it to the end of the file. -/
